@@ -165,7 +165,8 @@ func checkLHS(
 	stmt *ast.AssignStmt,
 	expr ast.Expr,
 ) *ImmutableViolation {
-	switch e := expr.(type) {
+	// (x.f) = v writes x.f just as x.f = v does
+	switch e := ast.Unparen(expr).(type) {
 	case *ast.SelectorExpr:
 		return checkFieldAssignment(ctx, stmt, e)
 	case *ast.IndexExpr:
@@ -234,7 +235,7 @@ func checkIndexAssignment(
 	stmt *ast.AssignStmt,
 	index *ast.IndexExpr,
 ) *ImmutableViolation {
-	selector, ok := index.X.(*ast.SelectorExpr)
+	selector, ok := ast.Unparen(index.X).(*ast.SelectorExpr)
 	if !ok {
 		return nil
 	}
@@ -290,8 +291,9 @@ func checkIncDec(
 ) []ImmutableViolation {
 	var violations []ImmutableViolation
 
-	// Check for field increment/decrement: x.field++
-	if selector, ok := node.X.(*ast.SelectorExpr); ok {
+	// Check for field increment/decrement: x.field++ (also written (x.field)++)
+	operand := ast.Unparen(node.X)
+	if selector, ok := operand.(*ast.SelectorExpr); ok {
 		violation := checkFieldIncDec(ctx, node, selector)
 		if violation != nil {
 			violations = append(violations, *violation)
@@ -300,7 +302,7 @@ func checkIncDec(
 	}
 
 	// Check for receiver increment/decrement: *receiver++
-	if star, ok := node.X.(*ast.StarExpr); ok {
+	if star, ok := operand.(*ast.StarExpr); ok {
 		violation := checkReceiverIncDec(ctx, node, star)
 		if violation != nil {
 			violations = append(violations, *violation)
@@ -377,7 +379,7 @@ func checkReceiverIncDec(
 	}
 
 	// Check if the increment/decrement is on the receiver: *receiver++
-	ident, ok := star.X.(*ast.Ident)
+	ident, ok := ast.Unparen(star.X).(*ast.Ident)
 	if !ok {
 		return nil
 	}
@@ -433,7 +435,7 @@ func checkCompoundLHS(
 	expr ast.Expr,
 	tok token.Token,
 ) *ImmutableViolation {
-	selector, ok := expr.(*ast.SelectorExpr)
+	selector, ok := ast.Unparen(expr).(*ast.SelectorExpr)
 	if !ok {
 		return nil
 	}
@@ -497,7 +499,7 @@ func checkReceiverReassignment(
 	}
 
 	// Check if the assignment is to the receiver: *r = value
-	ident, ok := star.X.(*ast.Ident)
+	ident, ok := ast.Unparen(star.X).(*ast.Ident)
 	if !ok {
 		return nil
 	}
